@@ -132,7 +132,11 @@ CHECKS = {
                         "v1 cannot carry UDP addresses: composition UDP->v1 is not judged"],
         "min_classes": {"quick": {"C12/outcome/accepted": 1500, "C12/outcome/passed-through": 300, "C12/outcome/rejected": 50, "C12/composition": 100, "C12/every-split-cases": 500, "C12/send-server-speaks-first": 500}},
         "runs": [
-            {"name": "recv+send", "pkg": "./c12", "run": ".", "rapid_checks": {"quick": 3000, "thorough": 200000},
+            {"name": "recv", "pkg": "./c12", "run": "TestReceive", "rapid_checks": {"quick": 3000, "thorough": 200000},
+             "shards": {"quick": 1, "thorough": 16}, "timeout": {"quick": 600, "thorough": 7200}},
+            # the sending side runs over real loopback sockets (1-3 upstream connections per case): the number of cases is
+            # sized so that a campaign does not exhaust the ephemeral ports (TIME_WAIT lasts a minute)
+            {"name": "send", "pkg": "./c12", "run": "TestSend", "rapid_checks": {"quick": 3000, "thorough": 12000},
              "shards": {"quick": 1, "thorough": 16}, "timeout": {"quick": 600, "thorough": 7200}},
         ],
     },
@@ -249,7 +253,7 @@ CHECKS = {
         "assumptions": ["interleavings of the relay goroutines are sampled", "downstreams without half-close (behind proxy_protocol/throttle, UDP) are outside the 'wherever the transport offers' clause"],
         "min_classes": {"quick": {"C03/tls": 40, "C03/unix": 40, "C03/fault": 20, "C03/half-close-with-data-after-eof": 60, "C03/peers/3": 20, "C03/prefetched": 40, "C03/upstream-tls": 40, "C03/tls12-close-with-last-record": 8, "C03/udp-upstream": 200, "C03/retried-attempts": 120}},
         "runs": [
-            {"name": "relay", "pkg": "./c03", "run": "TestRelay|TestUDPUpstream", "rapid_checks": {"quick": 100, "thorough": 5000},
+            {"name": "relay", "pkg": "./c03", "run": "TestRelay|TestUDPUpstream", "rapid_checks": {"quick": 100, "thorough": 3000},
              "shards": {"quick": 4, "thorough": 16}, "timeout": {"quick": 600, "thorough": 7200}},
             # every case of this one lasts a few hundred milliseconds of real time (a peer that appears late): fewer cases
             {"name": "retries", "pkg": "./c03", "run": "TestRetriedAttemptsCloseTheirConnections", "rapid_checks": {"quick": 60, "thorough": 800},
